@@ -923,7 +923,9 @@ pub fn interleave_record_batch(
             interleave(&column_values, indices)
         })
         .collect::<Result<Vec<_>, _>>()?;
-    RecordBatch::try_new(schema, columns)
+    // carry the row count explicitly so that batches without columns keep their rows
+    let options = RecordBatchOptions::new().with_row_count(Some(indices.len()));
+    RecordBatch::try_new_with_options(schema, columns, &options)
 }
 
 #[cfg(test)]
